@@ -221,6 +221,79 @@ def _aw_shape(f: ast.FunctionDef) -> dict[str, bool]:
     return out
 
 
+_SYM = {"lt": "<", "le": "<=", "gt": ">", "ge": ">=", "eq": "==", "ne": "!=", "unknown": "?"}
+
+
+class _MaskRaise(ast.NodeTransformer):
+    """`raise X(...)` -> `raise EXC` (the message text is not behaviour the model depends on)."""
+
+    def visit_Raise(self, node: ast.Raise) -> ast.Raise:
+        return ast.Raise(exc=ast.Name("EXC"), cause=None)
+
+
+def _stmts(f: ast.FunctionDef) -> list[str]:
+    """The body as a list of unparsed statements: docstring dropped, raise arguments masked."""
+    import copy
+
+    body = [s for s in f.body if not (isinstance(s, ast.Expr) and isinstance(s.value, ast.Constant) and isinstance(s.value.value, str))]
+    return [ast.unparse(ast.fix_missing_locations(_MaskRaise().visit(copy.deepcopy(s)))) for s in body]
+
+
+def _write_allocs_shape(f: ast.FunctionDef) -> tuple[bool, int]:
+    """`_write_allocs` must be exactly: count, base, the entry loop — optionally followed by k statements that zero the
+    slots right behind the list (`_ALLOC_STRUCT.pack_into(self._buf, base + (len(allocs) [+ j]) * _ALLOC_STRUCT.size, 0, 0)`,
+    j = 0..k-1 in order).  Returns (recognised, k)."""
+    st = [x.replace('"', "'") for x in _stmts(f)]
+    want = [
+        "struct.pack_into('<I', self._buf, 16, len(allocs))",
+        "base = _HEADER_STRUCT.size",
+        "for i, (offset, length) in enumerate(allocs):\n    _ALLOC_STRUCT.pack_into(self._buf, base + i * _ALLOC_STRUCT.size, offset, length)",
+    ]
+    if st[: len(want)] != want:
+        return False, 0
+    k = 0
+    for extra in st[len(want):]:
+        slot = "len(allocs)" if k == 0 else f"(len(allocs) + {k})"
+        if extra != f"_ALLOC_STRUCT.pack_into(self._buf, base + {slot} * _ALLOC_STRUCT.size, 0, 0)":
+            return False, 0
+        k += 1
+    return True, k
+
+
+def _read_allocs_exact(f: ast.FunctionDef) -> bool:
+    return [x.replace('"', "'") for x in _stmts(f)] == [
+        "num = struct.unpack_from('<I', self._buf, 16)[0]",
+        "allocs: list[tuple[int, int]] = []",
+        "base = _HEADER_STRUCT.size",
+        "for i in range(num):\n    offset, length = _ALLOC_STRUCT.unpack_from(self._buf, base + i * _ALLOC_STRUCT.size)\n    allocs.append((offset, length))",
+        "return allocs",
+    ]
+
+
+def _allocate_exact(f: ast.FunctionDef, al: dict) -> bool:
+    g, full, gi, gt = (_SYM[str(al[k])] for k in ("sizeGuard", "full", "gapInner", "gapTail"))
+    return _stmts(f) == [
+        f"if size {g} 0:\n    raise EXC",
+        "allocs = self._read_allocs()",
+        f"if len(allocs) {full} MAX_ALLOCS:\n    return None",
+        "data_end = self._total_size",
+        "prev_end = HEADER_SIZE",
+        f"for i, (off, length) in enumerate(allocs):\n    gap = off - prev_end\n    if gap {gi} size:\n        allocs.insert(i, (prev_end, size))\n"
+        "        self._write_allocs(allocs)\n        self._warn_if_near_limit(len(allocs))\n        return prev_end\n    prev_end = off + length",
+        "gap = data_end - prev_end",
+        f"if gap {gt} size:\n    allocs.append((prev_end, size))\n    self._write_allocs(allocs)\n    self._warn_if_near_limit(len(allocs))\n    return prev_end",
+        "return None",
+    ]
+
+
+def _free_exact(f: ast.FunctionDef, fr: dict) -> bool:
+    return _stmts(f) == [
+        "allocs = self._read_allocs()",
+        f"for i, (off, _) in enumerate(allocs):\n    if off {_SYM[str(fr['cmp'])]} offset:\n        allocs.pop(i)\n        self._write_allocs(allocs)\n        return",
+        "raise EXC",
+    ]
+
+
 def _b(x: object) -> str:
     return "true" if x else "false"
 
@@ -243,20 +316,17 @@ def emit() -> dict[str, str]:
     count_ok = len(count_fmts) == 1 and len(count_offs) == 1 and {"_read_allocs", "_write_allocs"} <= set(count_funcs)
     little_c, count_fields = _fmt_fields(count_fmts[0]) if count_fmts else (False, [])
     # where the table starts / how an entry is addressed in _read_allocs and _write_allocs
-    ra, wa = ast.unparse(_func(tree, "ShmAllocator", "_read_allocs")), ast.unparse(_func(tree, "ShmAllocator", "_write_allocs"))
-    table_ok = (
-        "base = _HEADER_STRUCT.size" in ra and "base = _HEADER_STRUCT.size" in wa
-        and "_ALLOC_STRUCT.unpack_from(self._buf, base + i * _ALLOC_STRUCT.size)" in ra
-        and "_ALLOC_STRUCT.pack_into(self._buf, base + i * _ALLOC_STRUCT.size, offset, length)" in wa
-        and "struct.pack_into('<I', self._buf, 16, len(allocs))" in wa.replace('"', "'")
-        and "for i in range(num):" in ra
-    )
+    wa_ok, trailing = _write_allocs_shape(_func(tree, "ShmAllocator", "_write_allocs"))
+    table_ok = wa_ok and _read_allocs_exact(_func(tree, "ShmAllocator", "_read_allocs"))
     al = _allocate_shape(_func(tree, "ShmAllocator", "allocate"))
     fr = _free_shape(_func(tree, "ShmAllocator", "free"))
+    al["body"] = bool(al["body"]) and _allocate_exact(_func(tree, "ShmAllocator", "allocate"), al)
+    fr["body"] = bool(fr["body"]) and _free_exact(_func(tree, "ShmAllocator", "free"), fr)
     sk = _sink_shape(_func(tree, "_ShmSink", "__init__"), _func(tree, "_ShmSink", "write"))
     aw = _aw_shape(_func(tree, "ShmSegment", "allocate_and_write"))
-    reset_ok = "struct.pack_into('<I', self._buf, 16, 0)" in ast.unparse(_func(tree, "ShmAllocator", "reset")).replace('"', "'")
-    init_ok = "_HEADER_STRUCT.pack_into(buf, 0, _MAGIC, _VERSION, data_size, 0, 0)" in ast.unparse(_func(tree, "ShmAllocator", "initialize"))
+    reset_ok = [x.replace('"', "'") for x in _stmts(_func(tree, "ShmAllocator", "reset"))] == ["struct.pack_into('<I', self._buf, 16, 0)"]
+    init_ok = _stmts(_func(tree, "ShmAllocator", "initialize")) == [
+        "data_size = total_size - HEADER_SIZE", "_HEADER_STRUCT.pack_into(buf, 0, _MAGIC, _VERSION, data_size, 0, 0)"]
     fps = [
         (f"{cls}.{fn}", _fingerprint(_func(tree, cls, fn)))
         for cls, fn in [("ShmAllocator", "allocate"), ("ShmAllocator", "free"), ("ShmAllocator", "_read_allocs"),
@@ -299,8 +369,13 @@ def countWidth : Nat := {sum(count_fields)}
 def countSitesAgree : Bool := {_b(count_ok)}
 /-- every format string is little-endian (`<`) -/
 def littleEndian : Bool := {_b(little_h and little_a and little_c)}
-/-- `_read_allocs` / `_write_allocs` address entry `i` at `base + i * _ALLOC_STRUCT.size`, count written first -/
+/-- `_read_allocs` / `_write_allocs` are *exactly* the statement sequences the model transliterates (count first, then
+    entry `i` at `base + i * _ALLOC_STRUCT.size`), `_write_allocs` optionally followed by `writeTrailingSlots` zeroed slots -/
 def tableAccessRecognised : Bool := {_b(table_ok)}
+/-- number of slots right behind the list that `_write_allocs` additionally zeroes after the entry loop
+    (`_ALLOC_STRUCT.pack_into(self._buf, base + (len(allocs) + j) * _ALLOC_STRUCT.size, 0, 0)`); the write loop's extent is
+    `tableBase + entrySize * (len + writeTrailingSlots)` -/
+def writeTrailingSlots : Nat := {trailing}
 /-- `reset` stores 0 in the count field; `initialize` packs (magic, version, data_size, 0, 0) at offset 0 -/
 def resetRecognised : Bool := {_b(reset_ok)}
 def initializeRecognised : Bool := {_b(init_ok)}
